@@ -1026,6 +1026,10 @@ func C02(t Tier) int {
 		bounds = []explore.Bounds{{Depth: 5, V: 1, Deadline: dl}, {Depth: 6, V: 1, Deadline: dl}, {Depth: 6, V: 2, Deadline: dl}, {Depth: 7, V: 2, Deadline: dl}}
 	}
 	RunGraph(run, sys, bounds, 8)
+	// second system: two topics of one owner whose names differ only in letter case have separate writer lists
+	cs := aolSystem(aolVariant{ID: "C02/case", OwnACL: true, OwnCount: true, Case: true, Ctl: []string{"NB"}})
+	cdl := deadline(t, 45*time.Second, 4*time.Minute)
+	RunGraph(run, cs, []explore.Bounds{{Depth: 5, V: 1, Deadline: cdl}, {Depth: 6, V: 1, Deadline: cdl}}, 4)
 	run.Assumptions = []string{
 		"accounts are plain secp256k1 key accounts; x/group policy accounts and governance-executed messages are outside the alphabet",
 		"delegation = x/authz GenericAuthorization without expiry",
